@@ -22,9 +22,9 @@ type Lexed struct {
 }
 
 var (
-	reInt   = regexp.MustCompile(`^(0|-?[1-9][0-9]*)$`)
-	reNum   = regexp.MustCompile(`^-?(0|[1-9][0-9]*)(\.[0-9]+)?([eE][+-]?[0-9]+)?$`)
-	reRFC   = regexp.MustCompile(`^[0-9]{4}-[0-9]{2}-[0-9]{2}T[0-9]{2}:[0-9]{2}:[0-9]{2}(\.[0-9]+)?(Z|[+-][0-9]{2}:[0-9]{2})$`)
+	reInt = regexp.MustCompile(`^(0|-?[1-9][0-9]*)$`)
+	reNum = regexp.MustCompile(`^-?(0|[1-9][0-9]*)(\.[0-9]+)?([eE][+-]?[0-9]+)?$`)
+	reRFC = regexp.MustCompile(`^[0-9]{4}-[0-9]{2}-[0-9]{2}T[0-9]{2}:[0-9]{2}:[0-9]{2}(\.[0-9]+)?(Z|[+-][0-9]{2}:[0-9]{2})$`)
 )
 
 // Lex is the reference lexer for parameter texts (query, header, path) of primitive types.
